@@ -5,6 +5,7 @@
 
 mod checks;
 mod gen;
+mod hostile;
 mod io;
 mod obs;
 mod refimpl;
